@@ -8,6 +8,9 @@ import (
 	"strconv"
 	"strings"
 	"text/template"
+	"unicode"
+	"unicode/utf16"
+	"unicode/utf8"
 
 	"github.com/robfig/soy/ast"
 	"github.com/robfig/soy/data"
@@ -169,7 +172,7 @@ func (s *state) walk(node ast.Node) {
 		s.js("null")
 	case *ast.StringNode:
 		s.js("'")
-		template.JSEscape(s.wr, []byte(node.Value))
+		jsEscape(s.wr, []byte(node.Value))
 		s.js("'")
 	case *ast.IntNode:
 		s.js(node.String())
@@ -206,7 +209,7 @@ func (s *state) walk(node ast.Node) {
 			}
 			first = false
 			s.js("'")
-			template.JSEscape(s.wr, []byte(k))
+			jsEscape(s.wr, []byte(k))
 			s.js("':")
 			s.walk(node.Items[k])
 		}
@@ -778,7 +781,7 @@ func (s *state) nodeFromValue(pos ast.Pos, val data.Value) ast.Node {
 func (s *state) writeRawText(text []byte) {
 	s.indent()
 	s.js(s.bufferName, " += '")
-	template.JSEscape(s.wr, text)
+	jsEscape(s.wr, text)
 	s.js("';\n")
 }
 
@@ -823,4 +826,23 @@ func (s *state) jsln(args ...interface{}) {
 	s.indent()
 	s.js(args...)
 	s.wr.Write([]byte("\n"))
+}
+
+// jsEscape writes the escaped form of b, for use within a quoted javascript
+// string.  It is template.JSEscape, except that an unprintable character outside
+// the basic multilingual plane is written as a surrogate pair (the "\u" escape
+// takes exactly four digits).
+func jsEscape(w io.Writer, b []byte) {
+	var last = 0
+	for i := 0; i < len(b); {
+		var r, size = utf8.DecodeRune(b[i:])
+		if r > 0xFFFF && !unicode.IsPrint(r) {
+			template.JSEscape(w, b[last:i])
+			var r1, r2 = utf16.EncodeRune(r)
+			fmt.Fprintf(w, "\\u%04X\\u%04X", r1, r2)
+			last = i + size
+		}
+		i += size
+	}
+	template.JSEscape(w, b[last:])
 }
